@@ -33,7 +33,7 @@ def run(tier):
     model = Model()
     R = rng('C10', 'chunks')
     tmp = tempfile.mkdtemp(prefix='verif_c10_')
-    n_specs = 4 if tier == 'quick' else 25
+    n_specs = 6 if tier == 'quick' else 30
     try:
         for si in range(n_specs):
             vrl = R.choice([20, 24, 32, 48, 64])
